@@ -1,2 +1,16 @@
 #!/bin/bash
-exec "$(dirname "$0")/../../tools/vrw_prebuild.sh" "$1" c39 /repo/event/event.go
+# event.go rewritten for lib/vsched; in the rewritten copy the per-subscriber buffer is shrunk from 65536 to 4 events so
+# that "the subscriber's buffer is full" is a reachable state (checks/c39/main.go: bufCap)
+set -e
+ROOT="$(cd "$(dirname "$0")/../.." && pwd)"
+"$ROOT/tools/vrw_prebuild.sh" "$1" c39 /repo/event/event.go
+python3 - "$1" <<'PY'
+import json, re, sys
+ov = json.load(open(sys.argv[1]))
+f = ov["Replace"]["/repo/event/event.go"]
+s = open(f).read()
+new, n = re.subn(r"maxEventChSize\s*=\s*65536", "maxEventChSize = 4", s)
+if n != 1:
+    sys.exit("c39 prebuild: maxEventChSize = 65536 not found in event.go")
+open(f, "w").write(new)
+PY
